@@ -65,11 +65,14 @@ fn end_mmap(
     len: usize,
     tmpfile: &mut NamedTempFile,
 ) -> std::io::Result<()> {
-    if let Some(mmap) = mmap.take() {
-        mmap.flush()?;
-        drop(mmap);
-        tmpfile.as_file().set_len(len as u64)?;
+    if let Some(map) = mmap.as_ref() {
+        // The mapping is given up only once every step has worked: when one of
+        // them fails the writer stays as it was, so carrying on with it (a
+        // retried write, a commit) can't publish the preallocated padding.
+        map.flush()?;
         tmpfile.seek(std::io::SeekFrom::Start(len as u64))?;
+        tmpfile.as_file().set_len(len as u64)?;
+        *mmap = None;
     }
     Ok(())
 }
